@@ -174,6 +174,29 @@ func TestVerifReplayStructure(t *testing.T) {
 			}
 		}
 	}
+	// an argument defined twice in one body is always rejected, in every layout, wherever the second
+	// definition sits (directly after, after a block, at the end, in a nested body, in one-line blocks)
+	checkDup := func(items []verifItem, what string) {
+		for _, oneLine := range []bool{false, true} {
+			for _, nl := range []string{"\n", "\r\n"} {
+				src := verifRender(items, "", oneLine, nl)
+				n++
+				_, diags := ParseConfig([]byte(src), "t.hcl", hcl.InitialPos)
+				if !diags.HasErrors() {
+					if fails < 20 {
+						t.Errorf("REPLAY-FAIL func=hclsyntax.ParseConfig input=%q %s is accepted", src, what)
+					}
+					fails++
+				}
+			}
+		}
+	}
+	checkDup([]verifItem{{attr: "a"}, {attr: "a"}}, "an argument defined twice in a row")
+	checkDup([]verifItem{{attr: "a"}, {typ: "b"}, {attr: "c"}, {attr: "a"}}, "an argument defined twice (second definition at the end)")
+	checkDup([]verifItem{{attr: "a"}, {typ: "b", body: []verifItem{{attr: "a"}}}, {attr: "a"}}, "an argument defined twice around a block that defines it too")
+	checkDup([]verifItem{{typ: "b", labels: []string{`"x"`}, body: []verifItem{{attr: "k"}, {typ: "n"}, {attr: "k"}}}}, "an argument defined twice in a nested body")
+	checkDup([]verifItem{{typ: "b", body: []verifItem{{typ: "c", body: []verifItem{{attr: "d"}, {attr: "e"}, {attr: "d"}}}}}, {attr: "d"}}, "an argument defined twice two levels down")
+	checkDup([]verifItem{{attr: "é"}, {attr: "é"}}, "a non-ASCII argument defined twice")
 	// every label alone and next to an identifier label
 	for _, l := range labels {
 		check([]verifItem{{typ: "blk", labels: []string{l}, body: []verifItem{{attr: "x"}}}})
